@@ -1,7 +1,7 @@
 """C09 — half-open circuit breaker lets through at most the permitted trial calls."""
 from ..core import graph, Call, peel, leaves, show, N
 from ..util import *
-from .cb_common import CB, CRATE
+from .cb_common import CB, CRATE, check_no_evict_in_half_open
 
 EXPLANATION = (
     "Decides T-RESERVE on the admission function: every path that admits a call outside the Closed arm (the "
@@ -128,7 +128,7 @@ def run(facts, tr, rep):
     # ---- the half-open episode ends: any failure re-opens, `permitted` successes close
     dec_seen = set()
     for (b_, cs, tgt) in cb.transition_calls():
-        name = b_.def_.split("::")[-1]
+        name = cb.role(b_)
         arm, arm_edge = cb.arm_of(b_, cs.bb)
         if arm != "HalfOpen":
             continue
@@ -155,41 +155,7 @@ def run(facts, tr, rep):
     rep.ob("C09.DECIDE", "%s|both-decisions" % CRATE, dec_seen == {"fail", "ok"}, "-",
            "both half-open decisions (re-open on failure, close after the permitted successes) exist" if dec_seen == {"fail", "ok"} else
            "half-open decisions present: %s" % sorted(dec_seen))
-    # ---- the counter the closing decision reads must not be decremented while half-open
-    rs = facts.bodies.get(cb.circuit_adt + "::record_success")
-    close_fields = set()
-    if rs is not None:
-        for (b_, cs, tgt) in cb.transition_calls():
-            if b_ is rs and tgt == "Closed":
-                for e in dominating_edges(tr, rs, cs.bb):
-                    if e["kind"] == "bool" and mentions_field(tr, e["node"], "permitted_calls_in_half_open"):
-                        close_fields |= {x[2] for x in tr.walk(e["node"], limit=80) if x[0] == "field" and x[3] == cb.circuit_adt}
-    rep.note("closing decision reads %s" % sorted(close_fields))
-    ndec = 0
-    for f in sorted(close_fields):
-        for (b_, i, j, s_) in field_writes(facts, cb.circuit_adt, f):
-            val = peel(tr.stmt_value(b_, i, j))
-            dec = (val[0] == "call" and tr.call_of(val).name in ("saturating_sub", "wrapping_sub", "checked_sub")) or \
-                  (val[0] == "field" and peel(val[1])[0] == "binop" and peel(val[1])[1].startswith("Sub")) or (val[0] == "binop" and val[1].startswith("Sub"))
-            if not dec:
-                continue
-            ndec += 1
-            rep.saw(b_)
-            okc = False
-            for e in dominating_edges(tr, b_, i):
-                if e["kind"] == "bool" and e["label"] == "true":
-                    cm = normalise_cmp(tr, e["node"])
-                    if cm and cm[0] == "Eq" and (mentions_field(tr, cm[1], cb.state_field) or mentions_field(tr, cm[2], cb.state_field)):
-                        for side in (cm[1], cm[2]):
-                            if any(x[0] == "agg" and tr.agg_of(x)[1].get("variant") == "Closed" for x in tr.walk(side, limit=20)) or \
-                               any(x[0] == "const" and "Closed" in str(x[1]) for x in tr.walk(side, limit=20)):
-                                okc = True
-                if e["kind"] == "enum" and e["label"] == "Closed" and mentions_field(tr, e["node"], cb.state_field):
-                    okc = True
-            rep.ob("C09.NO-EVICT-IN-HALF-OPEN", skey(b_, "decrement.%s" % f), okc, where(b_, i, j),
-                   "%s (read by the closing decision) is decremented only while the breaker is Closed" % f if okc else
-                   "%s, which the half-open closing decision compares with permitted_calls_in_half_open, can be decremented while half-open "
-                   "(window eviction): with a window smaller than the permitted trials the breaker never decides and keeps admitting trial calls" % f)
+    ndec = check_no_evict_in_half_open(cb, rep, "C09.NO-EVICT-IN-HALF-OPEN")
     # ---- writers of the guard counters: zeroed only by the transition fn, incremented under the lock
     for f in cfields:
         ws = field_writes(facts, cb.circuit_adt, f)
